@@ -598,7 +598,8 @@ def std_summaries():
     P[r'log::max_level'] = lambda se, env, pc: one(env, Opaque('level'))
     P[r'(?:(?:std|core)::fmt::)?Arguments::.*'] = lambda se, env, pc, *a: one(env, Opaque('fmt-args'))
     P[r'(?:core|std)::fmt::rt::.*'] = lambda se, env, pc, *a: one(env, Opaque('fmt-arg'))
-    P[r'(?:std|alloc)::fmt::format|format'] = lambda se, env, pc, *a: one(env, {'str': '<formatted>'})
+    P[r'(?:std|alloc)::fmt::format'] = lambda se, env, pc, *a: one(env, {'str': '<formatted>'})
+    P[r'format'] = lambda se, env, pc, *a: one(env, {'str': '<formatted>'})      # the key an obligation overrides when strings matter (O11.7)
     P[r'format_args_helper.*'] = lambda se, env, pc, *a: one(env, Opaque('fmt'))
     P[r'must_use|std::hint::must_use|core::hint::must_use'] = lambda se, env, pc, x: one(env, x)
     P[r'(?:std|alloc)::fmt::format::format_inner'] = lambda se, env, pc, *a: one(env, {'str': '<formatted>'})
